@@ -34,6 +34,7 @@ meta = {
         'baseline_suite_with_change': suite.get('suite_summary'),
         'baseline_suite_applied_together_with': suite.get('union'),
         'baseline_stable_tests_failing_with_change': suite.get('stable_failing'),
+        'baseline_tests_retried_alone': suite.get('retried_alone'),
         'commands': ['python3 /verif/bin/confirm_seed.py %s --skip-suite   # run_demo.sh with and without the change' % a.seed,
                      'python3 /verif/bin/confirm_union.py %s   # cargo nextest run --workspace ... (pinned baseline command) with the change(s) applied' % ' '.join(suite.get('union', [a.seed]))],
     },
